@@ -13,7 +13,7 @@ Lemma obj_good : forall n L s o s1 sends e,
   InvO (op_ids s o ++ L) s1 /\ Forall (Good (op_ids s o ++ L)) (flat_map send_msgs sends).
 Proof.
   intros n L s o s1 sends e I Hw H.
-  destruct o; [> eapply og_OSynth; eassumption | eapply og_OGroup; eassumption | eapply og_OBasicNew; eassumption | eapply og_ONodeSet; eassumption | eapply og_ONodeSetn; eassumption | eapply og_ONodeMap; eassumption | eapply og_ONodeMapn; eassumption | eapply og_ONodeFill; eassumption | eapply og_ONodeRelease; eassumption | eapply og_ONodeRun; eassumption | eapply og_ONodeFree; eassumption | eapply og_ONodeTrace; eassumption | eapply og_ONodeQuery; eassumption | eapply og_ONodeMoveBefore; eassumption | eapply og_ONodeMoveAfter; eassumption | eapply og_ONodeMoveToHead; eassumption | eapply og_ONodeMoveToTail; eassumption | eapply og_OGroupFreeAll; eassumption | eapply og_OGroupDeepFree; eassumption | eapply og_OGroupDumpTree; eassumption | eapply og_OReorder; eassumption | eapply og_OFreeDefaultGroup; eassumption | eapply og_OSendDefaultGroups; eassumption | eapply og_ODumpOsc; eassumption | eapply og_ODefSend; eassumption | eapply og_ODefLoad; eassumption | eapply og_OBufNew; eassumption | eapply og_OBufConsecutive; eassumption | eapply og_OBufNewRead; eassumption | eapply og_OBufNewCue; eassumption | eapply og_OBufAlloc; eassumption | eapply og_OBufAllocRead; eassumption | eapply og_OBufRead; eassumption | eapply og_OBufCue; eassumption | eapply og_OBufWrite; eassumption | eapply og_OBufSimple; eassumption | eapply og_OBufFree; eassumption | eapply og_OBufFreeAll; eassumption | eapply og_OBufFill; eassumption | eapply og_OBufSet; eassumption | eapply og_OBufSetn; eassumption | eapply og_OBufQuery; eassumption | eapply og_OBufGet; eassumption | eapply og_OBufGetn; eassumption | eapply og_OBufGen; eassumption | eapply og_OBufNormalize; eassumption | eapply og_OBufCopyData; eassumption | eapply og_OBusNew; eassumption | eapply og_OBusFree; eassumption | eapply og_OBusSet; eassumption | eapply og_OBusSetn; eassumption | eapply og_OBusSetPairs; eassumption | eapply og_OBusFill; eassumption | eapply og_OBusClear; eassumption | eapply og_OBusGet; eassumption | eapply og_OBusGetn; eassumption | eapply og_ORaw; eassumption | eapply og_OBindEnter; eassumption | eapply og_OBindExit; eassumption | eapply og_OBindRaise; eassumption ].
+  destruct o; [> eapply og_OSynth; eassumption | eapply og_OGroup; eassumption | eapply og_OBasicNew; eassumption | eapply og_ONodeSet; eassumption | eapply og_ONodeSetn; eassumption | eapply og_ONodeMap; eassumption | eapply og_ONodeMapn; eassumption | eapply og_ONodeFill; eassumption | eapply og_ONodeRelease; eassumption | eapply og_ONodeRun; eassumption | eapply og_ONodeFree; eassumption | eapply og_ONodeTrace; eassumption | eapply og_ONodeQuery; eassumption | eapply og_ONodeMoveBefore; eassumption | eapply og_ONodeMoveAfter; eassumption | eapply og_ONodeMoveToHead; eassumption | eapply og_ONodeMoveToTail; eassumption | eapply og_OGroupFreeAll; eassumption | eapply og_OGroupDeepFree; eassumption | eapply og_OGroupDumpTree; eassumption | eapply og_OReorder; eassumption | eapply og_OFreeDefaultGroup; eassumption | eapply og_OSendDefaultGroups; eassumption | eapply og_ODumpOsc; eassumption | eapply og_ODefSend; eassumption | eapply og_ODefLoad; eassumption | eapply og_OBufNew; eassumption | eapply og_OBufConsecutive; eassumption | eapply og_OBufNewRead; eassumption | eapply og_OBufNewCue; eassumption | eapply og_OBufAlloc; eassumption | eapply og_OBufAllocRead; eassumption | eapply og_OBufRead; eassumption | eapply og_OBufCue; eassumption | eapply og_OBufWrite; eassumption | eapply og_OBufSimple; eassumption | eapply og_OBufFree; eassumption | eapply og_OBufFreeAll; eassumption | eapply og_OBufFill; eassumption | eapply og_OBufSet; eassumption | eapply og_OBufSetn; eassumption | eapply og_OBufQuery; eassumption | eapply og_OBufGet; eassumption | eapply og_OBufGetn; eassumption | eapply og_OBufGen; eassumption | eapply og_OBufNormalize; eassumption | eapply og_OBufCopyData; eassumption | eapply og_OBusNew; eassumption | eapply og_OBusFree; eassumption | eapply og_OBusSet; eassumption | eapply og_OBusSetn; eassumption | eapply og_OBusSetPairs; eassumption | eapply og_OBusFill; eassumption | eapply og_OBusClear; eassumption | eapply og_OBusGet; eassumption | eapply og_OBusGetn; eassumption | eapply og_ORaw; eassumption | eapply og_OBindEnter; eassumption | eapply og_OBindExit; eassumption | eapply og_OBindRaise; eassumption | eapply og_OSync; eassumption ].
 Qed.
 
 (* what reaches the OSC interface *)
@@ -65,6 +65,35 @@ Proof. intros L s k [A B C D E]. constructor; auto. Qed.
 Lemma op_ids_bind : forall s o, nonbind o = false -> op_ids s o = [].
 Proof. intros s o H. destruct o; try discriminate H; reflexivity. Qed.
 
+Lemma flush_good : forall L top, Forall (Good L) top -> Forall (Good L) (flat_map send_msgs (flush top)).
+Proof. intros L top H. unfold flush. destruct top; [constructor|]. cbn [flat_map send_msgs]. rewrite app_nil_r. exact H. Qed.
+
+Lemma sync_event_good : forall L id, EvGood L (WBundle PNone [("/sync", [AInt id])]).
+Proof.
+  intros L id. unfold EvGood. cbn [wev_msgs]. constructor; [|constructor]. split; [reflexivity|].
+  intros k i H. vm_compute in H. contradiction H.
+Qed.
+
+(* server.sync(): every piece that goes out is good, what stays collected stays good *)
+Lemma sync_fuel_good : forall L f stk id,
+  Forall (Forall (Good L)) stk ->
+  Forall (Forall (Good L)) (fst (fst (sync_fuel f stk id))) /\ Forall (EvGood L) (snd (fst (sync_fuel f stk id))).
+Proof.
+  intros L f. induction f as [|f IH]; intros stk id H; destruct stk as [|top rest]; cbn [sync_fuel fst snd].
+  - split; [constructor | constructor; [apply sync_event_good | constructor]].
+  - split; [exact H | constructor].
+  - split; [constructor | constructor; [apply sync_event_good | constructor]].
+  - inversion H as [|? ? K1 K2]; subst.
+    destruct (route_good L (flush top) rest K2 (flush_good L top K1)) as [R1 R2].
+    destruct (route rest (flush top)) as [[rest1 ev1] e1]. cbn [fst snd] in R1, R2.
+    destruct e1.
+    + cbn [fst snd]. split; [constructor; assumption | exact R2].
+    + destruct (IH rest1 id R1) as [S1 S2].
+      destruct (sync_fuel f rest1 id) as [[rest2 ev2] e2]. cbn [fst snd] in *.
+      split; [|apply Forall_app; split; assumption].
+      constructor; [destruct e2; [exact K1 | constructor] | exact S1].
+Qed.
+
 (* one step: the invariant is kept for the grown ledger, what reaches the wire is good *)
 Lemma step_good : forall n L s o,
   Inv L s -> wf_op n s o = true ->
@@ -99,6 +128,9 @@ Proof.
         split; [|exact R2]. split; [apply invO_set_stack; exact I | exact R1].
     + cbn [fst snd]. split; [|constructor]. split; [apply invO_set_stack; exact I|]. cbn [stack set_stack].
       apply Forall_drop_n. exact Hk.
+    + destruct (sync_fuel_good L (List.length (stack s)) (stack s) id Hk) as [S1 S2]. unfold sync_stack.
+      destruct (sync_fuel (List.length (stack s)) (stack s) id) as [[stk evs] e]. cbn [fst snd] in *.
+      split; [|exact S2]. split; [apply invO_set_stack; exact I | exact S1].
 Qed.
 
 (* well-formedness of a whole history: each op in the state in which it runs *)
